@@ -430,6 +430,50 @@ def c20(rep, tier, seed):
     if tier == "thorough":
         cfgs.append(("Pipeline_C20_thorough.cfg", "programs of length <= 3"))
     seq.check_pipeline(rep, cfgs, {"C20"}, tier, crash_key=_inner_task_key)
+    _cost_measurements(rep, tier)
+
+
+def _cost_measurements(rep, tier):
+    """combinators: constant number of blocks; waits / Get / Strand submit / co_await: none (Cost.tla over measurements)"""
+    exe = core.build_harness()
+    wd = core.workdir("Cost")
+    n = 12 if tier == "quick" else 64
+    rc, out, err = core.sh([exe, "allocs", "--max", str(n)], timeout=600)
+    recs = [json.loads(l) for l in out.splitlines() if l.startswith("{")]
+    if rc != 0 or not recs:
+        rep.violation("crash/allocs", "the allocation measurement program died (exit %s): %s" % (rc, err[-400:]), {"stderr": err[-2000:]})
+        return
+    path = os.path.join(wd, "cost.ndjson")
+    with open(path, "w") as f:
+        for r in recs:
+            f.write(json.dumps(r) + "\n")
+    r = core.run_tlc(wd, "Cost.tla", "Cost.cfg", workers=1, timeout=600, env_extra={"TRACE": path})
+    rep.add_tlc(r, "Cost.tla over %d measurements (combinators / waits / awaits, n = 1..%d)" % (len(recs), n))
+    if r.error and not r.violated and not r.post_false:
+        raise MachineryError("TLC failed on Cost.tla:\n" + r.error)
+    rep.executions += len(recs)
+    rep.traces += len(recs)
+    if r.violated or r.post_false:
+        # name the offending measurements (same rules, evaluated here only to build readable keys)
+        ref = {x["api"]: x["allocs"] for x in recs if x["n"] == 2}
+        seen = set()
+        for x in recs:
+            if x["kind"].startswith("zero") and x["allocs"] != 0:
+                key, why = "allocates/" + x["api"], "%s allocates %d block(s) for n = %d (must allocate nothing)" % (x["api"], x["allocs"], x["n"])
+            elif x["kind"] == "combinator" and x["api"] in ref and x["allocs"] > ref[x["api"]]:
+                key, why = "grows/" + x["api"], "%s allocates %d blocks for n = %d but %d for n = 2: not bounded by a constant" % (
+                    x["api"], x["allocs"], x["n"], ref[x["api"]])
+            elif x["kind"] == "combinator" and x["allocs"] > 8:
+                key, why = "ceiling/" + x["api"], "%s allocates %d blocks for n = %d" % (x["api"], x["allocs"], x["n"])
+            else:
+                continue
+            if key not in seen:
+                seen.add(key)
+                rep.violation(key, "Cost.tla CostRules: " + why, {"measurement": x, "tlc": r.out[-1500:]})
+        if not seen:
+            raise MachineryError("Cost.tla rejected the measurements but no rule names one:\n" + r.out[-2000:])
+    if len(rep.samples) < 6:
+        rep.samples.append({"kind": "allocation measurements validated against Cost.tla", "records": recs[:10]})
 
 
 @check("C19")
